@@ -15,6 +15,7 @@ import (
 	"strings"
 	"time"
 
+	"verif/reg"
 	"verif/vsched"
 )
 
@@ -468,6 +469,57 @@ func wrapValues() []uint32 {
 	for _, m := range []uint64{2, 3, 4, 8, 12, 16, 24, 32} {
 		v := (uint64(1)<<32 + m - 1) / m
 		out = append(out, uint32(v), uint32(v+1))
+	}
+	return out
+}
+
+// withPolicies expands scheduled jobs (jobs with a "bound" argument, explored by deviation bounding)
+// into the same job under each default-scheduler policy of explore.Config.Policy: the deviation bound
+// is a distance from ONE deterministic schedule, so bounding the distance from five different ones
+// (run-to-block lowest id / highest id, strict lowest-id priority, strict highest-id priority, round
+// robin) covers regions of the schedule space that are many deviations away from the first.
+// cacheOK says whether the job's whole environment is routed through declared scheduler operations,
+// so that happens-before state caching (strategy dbc) is sound for it; it is not for the os-backed
+// server (file-system effects are invisible) nor for oracles that read the global step counter.
+func withPolicies(tier string, jobs []reg.Job, cacheOK func(reg.Job) bool) []reg.Job {
+	var out []reg.Job
+	for _, j := range jobs {
+		b, has := j.Args["bound"]
+		if !has || j.Args["strategy"] == "por" || j.Args["policy"] != "" || j.Optional {
+			out = append(out, j)
+			continue
+		}
+		bound := atoiDef(b, 2)
+		ok := cacheOK != nil && cacheOK(j)
+		clone := func(pol, bnd, shards int) reg.Job {
+			c := j
+			c.Args = map[string]string{}
+			for k, v := range j.Args {
+				c.Args[k] = v
+			}
+			if bnd < 1 {
+				bnd = 1
+			}
+			c.Args["bound"] = fmt.Sprint(bnd)
+			if pol != 0 {
+				c.Args["policy"] = fmt.Sprint(pol)
+				c.Label = fmt.Sprintf("%s [policy %d, db%d]", j.Label, pol, bnd)
+				c.Shards = shards
+			}
+			if ok {
+				c.Args["cache"] = "1"
+			}
+			return c
+		}
+		up := 0
+		if ok {
+			up = 1 // with the state cache one more deviation costs about what the plain search costs at the base bound
+		}
+		if tier == "thorough" {
+			out = append(out, clone(0, bound+up, j.Shards), clone(1, bound, 16), clone(2, bound+up, 8), clone(3, bound+up, 8), clone(4, bound, 8))
+		} else {
+			out = append(out, clone(0, bound, j.Shards), clone(1, bound-1, 8), clone(2, bound, 4), clone(3, bound, 4), clone(4, bound-1+up, 4))
+		}
 	}
 	return out
 }
